@@ -99,6 +99,41 @@ def handler(case):
         ops = [f"prof interp {flist(arr)} {m}"]
         return dict(ops=ops, impl=[[g / n if n else 0.0 for g in got]] if n else [None], viols=viols,
                     nontrivial=("prepare", len(arr) > m, n), tag="prepare")
+    if k == "prepare-multi":
+        # several customer categories with profiles of different resolutions (active and reactive separately), prepared once:
+        # in every increment active / reactive demand = sum over the categories of the resampled profile value x customers
+        from relsad.network.components import Bus
+        from relsad.load.bus import CostFunction
+        m = case["m"]; n = case["n"]
+        b = Bus("B", n_customers=n)
+        for c in case["cats"]:
+            b.add_load_data(pload_data=np.array([float(F(x)) for x in c["p"]]),
+                            qload_data=None if c["q"] is None else np.array([float(F(x)) for x in c["q"]]), cost_function=CostFunction(A=1, B=1))
+        try:
+            b.prepare_load_data(np.arange(m))
+            gotp, gotq = [], []
+            for i in range(m):
+                b.set_load_and_cost(i)
+                gotp.append(float(b.pload)); gotq.append(float(b.qload))
+        except IndexError as e:
+            viols.append(("prepare.raise", f"{len(case['cats'])} categories with profile lengths {[(len(c['p']), None if c['q'] is None else len(c['q'])) for c in case['cats']]} on {m} increments: {e!r}"))
+            return dict(ops=[], impl=[], viols=viols, nontrivial=("prepare-multi", m, len(case["cats"])), tag="prepare-multi")
+        ops = []
+        for c in case["cats"]:
+            ops.append(f"prof interp {flist([F(x) for x in c['p']])} {m}")
+            ops.append(f"prof interp {flist([F(x) for x in (c['q'] if c['q'] is not None else ['0'] * len(c['p']))])} {m}")
+        from .common import run_driver
+        outs = run_driver(ops)
+        rows = [[F(x) for x in o.split(",")] if o != "-" else [] for o in outs]
+        wantp = [sum(rows[2 * j][i] for j in range(len(case["cats"]))) * n for i in range(m)]
+        wantq = [sum(rows[2 * j + 1][i] for j in range(len(case["cats"]))) * n for i in range(m)]
+        scale = max([1.0] + [abs(float(v)) for v in wantp + wantq])
+        for i in range(m):
+            if abs(float(wantp[i]) - gotp[i]) > 1e-9 * scale or abs(float(wantq[i]) - gotq[i]) > 1e-9 * scale:
+                viols.append(("prepare.multi", f"{len(case['cats'])} categories, profile lengths {[(len(c['p']), None if c['q'] is None else len(c['q'])) for c in case['cats']]}, {m} increments, {n} customers: "
+                                               f"demand in increment {i} is ({gotp[i]}, {gotq[i]}), sum of the resampled profiles x customers is ({float(wantp[i])}, {float(wantq[i])})"))
+                break
+        return dict(ops=ops, impl=[o for o in outs], viols=viols, nontrivial=("prepare-multi", m, len(case["cats"]), any(len(c["p"]) == m for c in case["cats"])), tag="prepare-multi")
     if k == "prepare-prod":
         # the whole production path: add_prod_data, prepare_prod_data (resampling), then set_prod in every increment:
         # production = min(resampled profile value, rating)  -  capping and resampling do not commute
@@ -137,6 +172,8 @@ def compare(case, m, i):
         scale = max([1.0] + [abs(float(v)) for v in vals])
         return all(abs(float(min(v, pmax)) - g) <= 1e-12 * scale and abs(float(min(v / 2, pmax / 2)) - gq) <= 1e-12 * scale
                    for v, g, gq in zip(vals, got, gotq))
+    if case["kind"] == "prepare-multi":
+        return m == i
     if case["kind"] in ("interp", "prepare"):
         if i[0] is None:
             return True
@@ -184,6 +221,16 @@ def gen(rng, n):
     for _ in range(n // 2):
         L = rng.choice([2, 6, 12, 24, 48]); m = rng.choice([1, 2, 4, 6, 8, 12, 24, 30])
         cases.append({"kind": "prepare", "arr": [str(dyadic(rng)) for _ in range(L)], "m": m, "n": rng.choice([1, 4, 8])})
+    for j in range(max(6, n // 4)):
+        # several categories / active and reactive profiles at different resolutions; in half of the cases the first active
+        # profile already has exactly one value per increment
+        m = rng.choice([2, 4, 6, 12, 24])
+        cats = []
+        for c in range(rng.choice([1, 2, 2, 3])):
+            Lp = m if (c == 0 and j % 2 == 0) else rng.choice([2, 3, 6, 12, 24, 48])
+            Lq = rng.choice([None, Lp, Lp, 2 * Lp, rng.choice([2, 6, 12, 48])])
+            cats.append({"p": [str(dyadic(rng)) for _ in range(Lp)], "q": None if Lq is None else [str(dyadic(rng, 0, 2)) for _ in range(Lq)]})
+        cases.append({"kind": "prepare-multi", "m": m, "n": rng.choice([1, 3, 10]), "cats": cats})
     return cases
 
 
